@@ -97,7 +97,8 @@ def cases(seed, tier):
     }
     S = pg.S
     case["script"].append({"do": "call", "plan": [msg(S, "null")], "tag": "followup-null"})
-    ci = 1
+    retarget = generic.second_suspender(case, ID, seed)
+    ci = generic.main_index(case)
     if has_planned_pause:
         n = 60
         yield case
@@ -116,7 +117,7 @@ def cases(seed, tier):
             inj.insert(0, {"id": "dp", "at": {"step": max(0, first - rng.choice([1, 2, 4, 8]))}, "do": "dpause"})
         for i in inj:
             if i["do"] == "trip":
-                i["args"] = generic.trip_args(rng)
+                i["args"] = retarget(generic.trip_args(rng))
         c["script"][ci]["inject"] = inj
         c["script"][ci]["decisions"] = [{"do": "resume"}, {"do": "resume"}, {"do": "resume"}]
         yield c
@@ -135,7 +136,7 @@ def check(res):
     v = View(res)
     if res.aborted:
         return out
-    inv = next((i for i in v.invocations if any(s.get("main") for s in [res.case["script"][1]])), None)
+    inv = next((i for i in v.invocations if any(s.get("main") for s in [res.case["script"][generic.main_index(res.case)]])), None)
     inv = v.invocations[0]
     evs = inv.events
     clear = next((e for e in evs if e.kind == "msg" and e.d["cmd"] == "clear_checkpoint"), None)
@@ -190,7 +191,7 @@ def check(res):
         return None
 
     yielded = {e.d.get("site") for e in evs if e.kind == "plan" and e.d["what"] == "yield"}
-    main_plan = res.case["script"][1]["plan"]
+    main_plan = res.case["script"][generic.main_index(res.case)]["plan"]
     for n in _walk(main_plan):
         if n.get("op") == "try" and n.get("finally"):
             f = first_msg_site(n)
